@@ -12,6 +12,7 @@ import (
 	"github.com/f1bonacc1/process-compose/src/pclog"
 	"github.com/f1bonacc1/process-compose/src/templater"
 	"github.com/f1bonacc1/process-compose/src/types"
+	"math"
 	"os"
 	"os/user"
 	"runtime"
@@ -743,6 +744,13 @@ func (p *ProjectRunner) scaleUpProcess(proc types.ProcessConfig, toAdd, scale, o
 		if err != nil {
 			log.Err(err).Msgf("failed to unmarshal config for %s", proc.Name)
 			return
+		}
+		// the JSON round trip turned integer variables into float64, which
+		// templates render in exponent notation (1e+06)
+		for k, v := range procFromConf.Vars {
+			if f, ok := v.(float64); ok && f == math.Trunc(f) && math.Abs(f) < 1<<53 {
+				procFromConf.Vars[k] = int(f)
+			}
 		}
 		procFromConf.ReplicaNum = origScale + i
 		procFromConf.Replicas = scale
